@@ -1,7 +1,7 @@
 _T = 'AITB.Codec.'
 SPEC = {
     'id': 'C17',
-    'lean_modules': ['AITB.Props.C17'],
+    'lean_modules': ['AITB.Props.C17', 'AITB.Props.C17Dbl', 'AITB.Props.C17DblText', 'AITB.Props.C17Final', 'AITB.Props.C17Oblig'],
     'theorems': [_T + t for t in [
         # numbers and combinators
         'scanN_printN', 'rep_roundtrip', 'rep_ok',
@@ -37,9 +37,30 @@ SPEC = {
         'count_integer_example',
         # bare Vector codec; decisions are a function of the table, and the precision witness flips one
         'roundtrip_vec', 'rdVec_ok', 'ext_rdVec', 'decisions_of_roundtrip', 'ppol_prec6_decision_counterexample',
+        # round 3: 17 significant digits identify a double, proved on the model's own number codec (sigDigits = the digits
+        # printf %.17g emits, toDouble = correctly rounded strtod); structural predicate <-> the executable isDoubleB
+        'floorLog10_le', 'roundHalfEven_close', 'roundHalfEven_eq', 'floorLog2_spec', 'floorLog2_unique', 'toDouble_near',
+        'decValue_sigDigits', 'decValue_sigDigits_close', 'toDouble_of_close', 'toDouble_sigDigits_ge17', 'toDouble_sigDigits17',
+        'toDouble_neg', 'toDouble_of_IsPosDbl', 'isDoubleB_of_IsPosDbl', 'IsPosDbl_of_toDouble', 'IsPosDbl_of_isDoubleB',
+        'isDoubleB_iff_IsPosDbl', 'sixteen_digits_not_enough',
+        # ... and on the model's concrete printer (printf %.{p}g layouts) and scanner (num_get accumulation + strtod): the
+        # former trusted hypothesis RT/Dbl17 is a theorem for the driver's codec
+        'DblText.floorLog10_lt', 'DblText.sigDigits_bounds', 'DblText.stripZeros_spec', 'DblText.accMant_shape', 'DblText.floatValue_shape',
+        'DblText.scanDQ_shape', 'DblText.scanDQ_gText', 'scanDQ_gText_sigDigits', 'scanDQ_zero', 'scanDQ_printDQ', 'scanDQ_printDQ_17', 'ratIO_RT',
+        # round trips of every kind at the source's precisions with NO numeric assumption (values = finite doubles)
+        'ratIO_Dbl17', 'isDblB_iff_IsDbl', 'roundtrip_dmodel_final', 'roundtrip_smodel_final', 'roundtrip_dexp_final', 'roundtrip_sexp_final',
+        'roundtrip_mpol_final', 'roundtrip_ppol_final', 'roundtrip_pd_final', 'roundtrip_ps_final', 'roundtrip_pdd_final',
+        'roundtrip_vec_final', 'load_dmodel_final', 'isDbl_half', 'isDbl_one', 'isDbl_third',
+        # consecutive loads on one stream: atomic each, failures sticky, sequences round-trip
+        'loadOn_good', 'loadSeq_failed', 'loadSeq_length', 'loadSeq_atomic', 'loadSeq_sticky', 'loadSeq_roundtrip', 'loadSeq_valid',
+        # helpers one level down: what isProbability (dense / sparse) guarantees about any object a load returns
+        'abs_excess_le', 'sparseRowOk_bounds', 'rowOk_bounds', 'loaded_dmodel_probabilities', 'loaded_smodel_probabilities',
+        # finding C17-4 (writers inherit the caller's notation): witnesses on the model's printf %.17f
+        'isDbl_smallThird', 'fixed17_counterexample', 'fixed17_tiny_counterexample',
     ]],
     # obligations over the regenerated module AITB.Gen.IOPrec (re-proved against the source on every run)
-    'gen_obligations': [_T + 'IOPrec_utils_ge_17', _T + 'IOPrec_pomdpPolicy', _T + 'IOPrec_commit_last'],
+    'gen_obligations': [_T + 'IOPrec_utils_ge_17', _T + 'IOPrec_pomdpPolicy', _T + 'IOPrec_commit_last',
+                        _T + 'IOPrec_formatted_only', _T + 'IOPrec_never_clears'],
     'harness': 'harness/c17.cpp',
     'level': 'proof',
     'timeout': {'quick': 600, 'thorough': 2400},
@@ -48,17 +69,17 @@ SPEC = {
             'POMDP::Policy, POMDP::Model/SparseModel over dense/sparse MDPs, bare Vector), alternating dyadic and "ugly" values (1/3, 0.1, '
             'DBL_MAX, denormals, random bit patterns); cases 0-3 are fixed witnesses (precision, 2^53+1 count, copied policy, '
             'IncrementalPruning tiger policy + tiger model). Protocol lines per case: rt (write, load into a different destination with a '
-            'trailer behind, compare bits, unread rest, decisions), trunc (EVERY strict byte prefix), corrupt (every token x 9 corruptions), '
-            'bcorrupt (24/60 single-byte overwrites), xload x6 (neighbouring destination shapes). Every single load is replayed by the Lean '
+            'trailer behind, compare bits, unread rest, decisions), trunc (EVERY strict byte prefix), corrupt (every token x 13 corruptions), '
+            'bcorrupt (24/60 single-byte overwrites), xload x6 (neighbouring destination shapes), fmt (7 formatting states of the writing stream), seq x4 (x, y, x of two kinds through one stream: clean / one token of the first, middle, last object corrupted), rtbits (negative zeros); corruptions now include sign flip, 0, and compensated negatives (1.5, -0.5 on neighbours); every load is repeated on a stream with exceptions(failbit|badbit). Every single load is replayed by the Lean '
             'reader on the same bytes (signal, object, unread rest). non-trivial = every line; distinct by line',
     'modelled': ['src/Utils/IO.cpp: every write()/read() overload',
                  'src/MDP/IO.cpp: operator<< / operator>> of Experience, SparseExperience, Model, SparseModel, PolicyInterface/Policy',
                  'include/AIToolbox/POMDP/IO.hpp: operator<< / operator>> of POMDP::Model<M>, POMDP::SparseModel<M>',
                  'src/POMDP/IO.cpp: operator<< / operator>> of POMDP::Policy, checkRemoveAtSign',
                  'libstdc++ num_get for unsigned long and double, printf %.{p}g, Eigen setFromTriplets, isProbability, setDiscount guard: modelled, tied by the differential run'],
-    'assumptions': ['17 significant digits identify a double (hypothesis RT / Dbl17 of the round-trip theorems; evaluated by the driver on every value of every generated object: rt lines compare the model reload with the original)',
+    'assumptions': ['every number of a saved object is a finite double (hypothesis IsDbl of the *_final round-trip theorems; evaluated by the driver on every value of every generated object). That 17 significant digits identify a double is no longer assumed: scanDQ_printDQ / ratIO_RT',
                     'non-finite values (inf/nan are written as text no reader accepts) are outside the quantifier',
                     'isProbability sums are exact rationals in the model (doubles in the code): outcomes whose margin to the 1e-6 tolerance is below 1e-9 are tagged ill_conditioned and not judged'],
-    'trusted_base': ['tools/extract_c17.py (writer precisions, sparse-table value type, commit-last discipline -> AITB.Gen.IOPrec)',
+    'trusted_base': ['tools/extract_c17.py (writer precisions, sparse-table value type, commit-last discipline, formatted-extraction-only and never-clears discipline of every reader -> AITB.Gen.IOPrec)',
                      'decide +kernel (kernel evaluation, no compiler trust) for the five witness theorems'],
 }
